@@ -478,6 +478,30 @@ pub fn c02_cases(tier: Tier) -> Vec<Case> {
         cases.push(c);
         n += 1;
     }
+    // (d) every written rule of every validator list, in every written order: the runtime pool's
+    // declarations (all permutations of the validator subsets per family, literal and constant bounds)
+    // re-checked rule by rule on the neighbourhood of every bound plus NaN / infinities / extremes.
+    // A rule that is dropped because another rule "implies" it shows up here.
+    for (k, s) in ntcore::grammar::rt_subjects(tier).iter().enumerate() {
+        let d0 = &s.decl;
+        if d0.std_validators().len() < 2 || d0.family() == Family::Any || d0.const_fn {
+            continue;
+        }
+        let every = if tier == Tier::Quick { 2 } else { 5 };
+        if k % every != 0 {
+            continue;
+        }
+        let mut d = d0.clone();
+        d.name = format!("Ro{k}");
+        d.derives = vec![Tr::Debug];
+        d.default = None;
+        let centers = ntcore::domain::decl_bounds(&d);
+        let inputs = neighbourhood(d.inner, &centers);
+        if let Some(mut c) = decl_case(&d, "accept", "rule-order") {
+            c.probes = probes_for(&d, &d.name, &inputs);
+            cases.push(c);
+        }
+    }
     let _ = n;
     cases
 }
